@@ -1,8 +1,25 @@
 (* C16 — recursive macros and includes are cut off with a diagnostic in bounded time. *)
 From Coq Require Import List NArith Bool String.
 Import ListNotations.
-Require Import St Loop Doc.
+Require Import St Ctl Loop Doc FuelProofs.
+Require PathClean.
 Open Scope string_scope.
+
+(* The recursion of user macros and includes is always cut off by the code's own limits and diagnostics, never by
+   the model's fuel: re-entrant calls nest at most 43 + (number of files) deep -- a user macro call is refused beyond
+   depth 42, a file already being processed is not included again (whatever the spelling of its path) -- so the
+   fuel chosen by compile_source suffices for EVERY document and world, and any larger fuel gives the same result.
+   (The work inside these bounds is limited by the expansion budget and the bound on argument size, which the
+   correspondence stream exercises under a watchdog; a step-count bound is not proved.) *)
+Theorem C16_nesting_bounded : forall d d' bs c s,
+  CInv c -> (avail c < d)%nat -> (d <= d')%nat -> run_blocks d' bs (c, s) = run_blocks d bs (c, s).
+Proof. exact fuel_enough. Qed.
+Theorem C16_fuel_never_decides : forall fmtname md wd main src bs d,
+  assoc main (w_fs wd) = Some src -> PathClean.clean main = main -> (nesting_fuel wd <= d)%nat ->
+  compile d fmtname md wd main bs = compile (nesting_fuel wd) fmtname md wd main bs.
+Proof. exact compile_fuel_independent. Qed.
+Print Assumptions C16_nesting_bounded.
+Print Assumptions C16_fuel_never_decides.
 Definition run_with (f : string) (src : string) (extra : list (string * string)) : st :=
   compile_source (runes f) 0 (world_of (runes src) (map (fun p => (runes (fst p), runes (snd p))) extra) [] false) main_path.
 Definition ends_with_after (s : st) : bool := (* the rest of the document is still processed *)
